@@ -1,4 +1,5 @@
 import KafkaModel.Model.Consumer
+import KafkaModel.Props.C02
 /-!
   C01 — Consumer delivers every log message exactly once, in order, per partition.
   Theorems about `iterate` (mirror of `MessageSetsIter`), `processPartition` / `processResponses`
@@ -574,5 +575,54 @@ theorem C01_poll_is_step {σ} (w : WC σ) (t : Bytes) (p : Int) (tr : Nat) (fs :
     | err e => simp at h
     | panic s => simp at h
     | diverge => simp at h
+
+end Kafka.Props.C01
+
+/-! ### closing the loop for uncompressed logs: what the decoder yields from a conforming broker's bytes *is* a conforming reply -/
+namespace Kafka.Props.C01
+open Kafka Kafka.Spec Kafka.Model Kafka.Props.C02
+
+theorem cutMsgs_prefix : ∀ (ms : List Msg) (t : Nat), cutMsgs ms t <+: ms := by
+  intro ms
+  induction ms with
+  | nil => intro t; simp [cutMsgs]
+  | cons m r ih =>
+    intro t
+    simp only [cutMsgs]
+    split
+    · exact (List.prefix_cons_inj m).mpr (ih _)
+    · exact List.nil_prefix
+
+/-- a broker serving an uncompressed log sends the encoded log from some entry on - skipping only entries below the asked
+    offset - cut at any byte (`fetchBytes` of the specification broker: from the first entry at or above the offset, at most
+    `max_bytes`).  What `fromSlice` exposes from these bytes (`C02_plain`) is a gap-free prefix of the messages available
+    from the asked offset: exactly the hypothesis `Ev.ok` puts on a poll in `C01_history`. -/
+theorem C01_plain_reply_conforms (ms : List Msg) (k t : Nat) (o : Int) (hk : ∀ m ∈ ms.take k, m.offset < o) :
+    want (cutMsgs (ms.drop k) t) o <+: avail (ms.map asMessage) o := by
+  have h1 : cutMsgs (ms.drop k) t <+: ms.drop k := cutMsgs_prefix _ _
+  have h2 : want (cutMsgs (ms.drop k) t) o <+: want (ms.drop k) o := by
+    unfold want
+    exact (h1.filter _).map _
+  have h3 : want (ms.drop k) o = avail (ms.map asMessage) o := by
+    unfold want avail
+    rw [List.filter_map]
+    congr 1
+    have hsplit : ms.filter ((fun m => decide (o ≤ m.offset)) ∘ asMessage)
+        = (ms.take k).filter ((fun m => decide (o ≤ m.offset)) ∘ asMessage) ++ (ms.drop k).filter ((fun m => decide (o ≤ m.offset)) ∘ asMessage) := by
+      rw [← List.filter_append, List.take_append_drop]
+    rw [hsplit]
+    have : (ms.take k).filter ((fun m => decide (o ≤ m.offset)) ∘ asMessage) = [] := by
+      rw [List.filter_eq_nil_iff]
+      intro m hm
+      have hlt := hk m hm
+      have : ¬ o ≤ m.offset := by omega
+      simp [asMessage, this]
+    rw [this, List.nil_append]
+    apply List.filter_congr
+    intro m _
+    simp [asMessage]
+    rfl
+  rw [← h3]
+  exact h2
 
 end Kafka.Props.C01
